@@ -495,7 +495,12 @@ func (x *Exec) invokeCore(fr *Frame, st *State, site ssa.Instruction, itype type
 					excluded = append(excluded, Neq(iv.Tag, IntLit(x.eng.typeTag(im.typ))))
 				}
 			}
-			x.oblige(fr, st, "dispatch", ikey+":"+txt, "receiver of "+txt+" holds none of the package types excluded by the dispatch clause", pos, And(excluded...), nil)
+			if len(allowed) == 1 && allowed[0] == "!opaque" {
+				x.vc.assumption("receivers of %s in %s are treated as opaque implementations (a receiver holding one of the package's own types is covered by that type's own contract, not re-entered here)", ikey, x.top.String())
+				x.assume(st, And(excluded...))
+			} else {
+				x.oblige(fr, st, "dispatch", ikey+":"+txt, "receiver of "+txt+" holds none of the package types excluded by the dispatch clause", pos, And(excluded...), nil)
+			}
 			impls = keep
 			if len(impls) == 0 {
 				if closed {
@@ -910,9 +915,11 @@ func (x *Exec) appendBuiltin(fr *Frame, st *State, args []Value, c *ssa.CallComm
 	}
 	et := rt.Underlying().(*types.Slice).Elem()
 	nl := x.vc.Name(Add(s.Len, addLen), "aplen")
-	ref := x.vc.Fresh("apback", SInt)
+	// the result's backing array is modelled as a new array (the prefix is copied); in-place
+	// growth within capacity is observationally the same unless the old slice is written later
+	ref := x.newRef(fr)
 	nc := x.vc.Fresh("apcap", SInt)
-	x.vc.Assert(And(Ge(nc, nl), Neq(ref, IntLit(0))))
+	x.vc.Assert(Ge(nc, nl))
 	res := VSlice{Backing{Heap: true, Ref: ref}, IntLit(0), nl, nc}
 	// contents: prefix preserved, single appended element placed (common case: append(s, e))
 	if a, ok := args[1].(VSlice); ok {
